@@ -7,4 +7,5 @@ INVARIANT MutualExclusion
 INVARIANT NoDuplicates
 INVARIANT ListIsHolders
 INVARIANT NoStranding
+INVARIANT IndInv
 PROPERTY EveryoneFinishes
